@@ -285,13 +285,13 @@ def year_long_case(rng, profile):
     """Year-long seasons: a crop that stands (nearly) a full year, harvested and replanted on the same date or within days of it,
     so that a season's last day and the next season's first day touch - mostly irrigated, mostly with the off-season simulated."""
     from ..domain import CROP_INFO  # noqa: F401
-    case = std_case(rng, dict(profile, crops=["SugarCane", "SugarCane", "Cassava", "AlfalfaGDD"], n_seasons=[2, 3, 4], off_season_p=0.7,
+    case = std_case(rng, dict(profile, crops=["SugarCane", "SugarCane", "SugarCane", "Cassava", "AlfalfaGDD"], n_seasons=[2, 3, 4], off_season_p=0.75,
                               start_rel=["at", "at", "before"], end_kinds=["after", "eoy", "harvestish"], sensible_planting_p=0.9,
                               irr_methods=[1, 1, 2, 3, 5, 4, 0], events_per_year=0.3, leap_end_p=0.0))
     crop = case["spec"]["crop"]
     if crop["name"] != "AlfalfaGDD":
         m, d = [int(x) for x in crop["planting_date"].split("/")]
-        h = _dt.date(2001, m, d) + _dt.timedelta(days=rng.choice([0, 0, 0, -1, -2, -7]))
+        h = _dt.date(2001, m, d) + _dt.timedelta(days=rng.choice([0, 0, 0, 0, -1, -2, -7]))
         crop["harvest_date"] = f"{h.month:02d}/{h.day:02d}"
         if case["spec"]["irr"]["method"] == 1:
             case["spec"]["irr"]["kwargs"]["SMT"] = [70, 70, 70, 70]
